@@ -131,7 +131,9 @@ def must(res, what=""):
 
 
 def sany(module):
-    p = subprocess.run(["java", "-cp", JAR, "tla2sany.SANY", module + ".tla"], cwd=SPEC,
+    # proof modules EXTEND TLAPS.tla, which ships with tlapm, not with tla2tools
+    jar = JAR + (":/opt/veriftools/tlapm/lib/tlapm/stdlib" if module.endswith("Proofs") else "")
+    p = subprocess.run(["java", "-cp", jar, "-DTLA-Library=/opt/veriftools/tlapm/lib/tlapm/stdlib", "tla2sany.SANY", module + ".tla"], cwd=SPEC,
                        stdout=subprocess.PIPE, stderr=subprocess.STDOUT)
     out = p.stdout.decode()
     return ("Semantic errors" not in out and "Parse Error" not in out and "Fatal" not in out
